@@ -89,7 +89,7 @@ PROPS = {
     "C04": {
         "id": "C04",
         "title": "Slices select and assign exactly the numpy-designated elements",
-        "rules": ["G5", "G5b", "G3", "G3b", "G3c", "G3d", "G4", "E1", "E2", "T1", "D2"],
+        "rules": ["G5", "G5b", "G3", "G3b", "G3c", "G3d", "G4", "E1", "E2", "T1", "D2", "N2"],
         "clause": "slice creation rejects by exception every out-of-range start/stop/step combination of the statement; every "
                   "multi-element slice assignment is count-guarded before the first write; no forward copy primitive runs on "
                   "possibly-aliased storage; a slice copy carries the source's index state; materialising a slice cannot "
